@@ -44,12 +44,14 @@ def strip_ops(ops):
 class C12(Prop):
     id = "C12"
     lean_module = "ProductMD.Properties.C12"
-    quick_budget = 2400
+    quick_budget = 1800
     thorough_budget = 24000
     rule = ("histories of add calls (rpms / modules / extra_files round-robin; valid, one-parameter-corrupted and randomly mutated "
-            "arguments; repeats; the same entry under several variants/arches) run step by step on the real object and on the Lean "
+            "arguments; repeats; the same entry under several variants/arches; read-only calls interleaved: dump_for_tree with bases that "
+            "prefix / do not prefix / only textually prefix the stored paths, a second export with another base, obj[variant], dumps()) run step by step on the real object and on the Lean "
             "model: outcome class and the whole mapping compared after EVERY call; oracle per call on the real object: refused => "
-            "ValueError/TypeError and mapping unchanged, accepted => exactly the addressed entry changed and holds the documented "
+            "ValueError/TypeError and mapping unchanged, read-only call => WHOLE mapping unchanged and the export = what the adds so far "
+            "determine, accepted => exactly the addressed entry changed and holds the documented "
             "record under the canonical key; dump_for_tree/_relative_to with bases that are / are not / only textually prefix the "
             "stored paths; non-trivial = distinct history")
     assumptions = ["str.lower() is modelled for ASCII letters only (signing keys are hex strings)",
@@ -110,7 +112,10 @@ class C12(Prop):
                 yield {"op": "check_uid", "args": {"uid": s, "expect": ":".join(parts) if good and keep else None}}
         for i in range(budget):
             k = kinds[i % 3]
-            yield {"op": "trace", "args": {"kind": k, "ops": FORMATS[k].gen_ops(rng, tier)}}
+            ops = FORMATS[k].gen_ops(rng, tier)
+            if rng.random() < 0.6:
+                ops = mc.interleave_readonly(rng, ops, k, BASES)
+            yield {"op": "trace", "args": {"kind": k, "ops": ops}}
 
     # ---- real side
     def real(self, case):
@@ -186,8 +191,15 @@ class C12(Prop):
         if case["op"] == "trace":
             f = FORMATS[a["kind"]]
             before = {}
+            filed = {}          # (variant, arch) -> records the accepted ExtraFiles.add calls put there, in order
             for i, (op, st) in enumerate(zip(a["ops"], real_out["steps"])):
-                bad = f.oracle_step(before, st["state"], op, st["out"])
+                if op.get("call", "add") in mc.READONLY:
+                    bad = self.readonly_step(before, st["state"], op, st["out"], filed)
+                else:
+                    bad = f.oracle_step(before, st["state"], op, st["out"])
+                    if a["kind"] == "extra_files" and "ok" in st["out"]:
+                        filed.setdefault((op["variant"], op["arch"]), []).append(
+                            {"file": op["path"], "size": op["size"], "checksums": mc.enc(op["checksums"])})
                 if bad is not None:
                     bad["observed"] = {"step": i, "call": dict((k, v) for k, v in op.items() if k != "expect"), "kind": bad["kind"],
                                        "why": op.get("why"), "format": a["kind"], "detail": bad["observed"]}
@@ -229,6 +241,36 @@ class C12(Prop):
             return None
         return None
 
+    def readonly_step(self, before, after, op, out, filed):
+        """a read-only call: the WHOLE mapping is what it was, and what it returned is what the adds so far determine"""
+        call = op["call"]
+        if after != before:
+            return {"kind": "readonly-changed-state", "observed": {"before": before, "after": after},
+                    "required": "%s leaves the manifest unchanged" % call}
+        if call == "dump_for_tree":
+            items = filed.get((op["variant"], op["arch"]))
+            if not items:
+                if out.get("err") != "KeyError":
+                    return {"kind": "tree-missing", "observed": out.get("err", "ok"), "required": "KeyError for a variant/arch without files"}
+                return None
+            if "err" in out:
+                return {"kind": "tree-error", "observed": out["err"], "required": "the export succeeds"}
+            try:
+                doc = json.loads(out["ok"])
+            except ValueError:
+                return {"kind": "tree-json", "observed": out["ok"][:200], "required": "JSON text"}
+            want = {"header": {"version": "1.0"},
+                    "data": [{"file": mc.rel_spec(it["file"], op["basepath"]), "size": it["size"], "checksums": it["checksums"]} for it in items]}
+            if doc != want:
+                return {"kind": "tree-content", "observed": doc, "required": want}
+        elif call == "getitem":
+            if isinstance(before, dict) and op["variant"] in before:
+                if out != {"ok": before[op["variant"]]}:
+                    return {"kind": "getitem", "observed": out, "required": {"ok": before[op["variant"]]}}
+            elif out.get("err") != "KeyError":
+                return {"kind": "getitem", "observed": out, "required": "KeyError"}
+        return None
+
     def nontrivial(self, case, real_out):
         if case["op"] == "trace":
             return any("ok" in s["out"] for s in real_out["steps"]) or len(real_out["steps"]) > 0
@@ -242,6 +284,17 @@ class C12(Prop):
             d["max_len"] = max(d["max_len"], len(a["ops"]))
             for op, st in zip(a["ops"], real_out["steps"]):
                 d["calls"] += 1
+                if op.get("call", "add") in mc.READONLY:
+                    w = op.get("why", op["call"])
+                    d["why"][w] = d["why"].get(w, 0) + 1
+                    if op["call"] == "dump_for_tree" and "ok" in st["out"]:
+                        try:
+                            stripped = any(x["file"] != y["file"] for x, y in zip(json.loads(st["out"]["ok"])["data"],
+                                                                                  st["state"].get(op["variant"], {}).get(op["arch"], [])))
+                        except Exception:
+                            stripped = False
+                        d["exports_that_strip"] = d.get("exports_that_strip", 0) + (1 if stripped else 0)
+                    continue
                 w = op.get("why", "?").split(":")[0]
                 d["why"][w] = d["why"].get(w, 0) + 1
                 if "ok" in st["out"]:
